@@ -409,7 +409,7 @@ def run(chk):
     plan = []
     # exhaustive: one call (all verdicts) x all circuits of <= 2 gates on one qubit
     plan.append(("bfs_n1", dict(cfg=cfg(1, 1, 2, "RatesSmall", bad=True, focus=False), workers=4, coverage=True)))
-    k = 1 if quick else 8
+    k = 1 if quick else 6
     plan += [("sim_n1", dict(cfg=cfg(1, 3, 4, "RatesFull"), simulate="num=%d" % (25 * k), depth=40)),
              ("sim_n2", dict(cfg=cfg(2, 3, 4, "RatesFull"), simulate="num=%d" % (70 * k), depth=40)),
              ("sim_n3", dict(cfg=cfg(3, 3, 4, "RatesFull"), simulate="num=%d" % (70 * k), depth=40)),
